@@ -4,7 +4,7 @@
 (define-sort F64 () (_ FloatingPoint 11 53))
 (define-sort ArrB () (Array Int (_ BitVec 8)))
 ; A Go string is a window (off,len) into a byte array.
-(declare-datatypes ((Str 0)) (((mk-str (str.arr (Array Int (_ BitVec 8))) (str.off Int) (str.len Int)))))
+(declare-datatypes ((Str 0)) (((mk-str (s.arr (Array Int (_ BitVec 8))) (s.off Int) (s.len Int)))))
 ; Go error values: nil, a sentinel variable (identified by number), or a pointer to an error struct
 ; with a single string field (type number, field contents).
 (declare-datatypes ((Err 0)) (((Nil) (Sentinel (sid Int)) (PErr (ptype Int) (pabv Str)))))
@@ -12,12 +12,11 @@
 (define-sort ArrI () (Array Int Int))
 (define-sort ArrO () (Array Int Bool))
 
-; Go string equality: same length, same bytes.
-(define-fun streq ((a Str) (b Str)) Bool
-  (and (= (str.len a) (str.len b))
-       (forall ((i Int)) (! (=> (and (<= 0 i) (< i (str.len a)))
-                                (= (select (str.arr a) (+ (str.off a) i)) (select (str.arr b) (+ (str.off b) i))))
-                            :pattern ((select (str.arr a) (+ (str.off a) i)))))))
+; Go string equality between two non-literal strings.  Comparisons against literals are expanded
+; by govc into length and byte tests; for two symbolic strings only the fact that Go's == is being
+; applied matters to the verified code (validate's loop), so the predicate is left uninterpreted
+; (anything proved holds for the real equality as well).
+(declare-fun streq (Str Str) Bool)
 
 ; math.Min / math.Max with Go's special cases (NaN, signed zeros).
 (define-fun gomin ((x F64) (y F64)) F64
@@ -53,3 +52,15 @@
 (define-fun pow2 ((x Real)) Real (* x x))
 (define-fun pow13r ((x Real)) Real (let ((x2 (* x x))) (let ((x4 (* x2 x2))) (let ((x8 (* x4 x4))) (* x8 (* x4 x))))))
 (define-fun pow15r ((x Real)) Real (let ((x2 (* x x))) (let ((x4 (* x2 x2))) (let ((x8 (* x4 x4))) (* x8 (* x4 (* x2 x)))))))
+
+; Qualitative severity rating scale (specification section 5 / 6): class of a float64 score by its
+; REAL value: -1 out of [0,10]; 0 NONE [0,0.1); 1 LOW [0.1,4); 2 MEDIUM [4,7); 3 HIGH [7,9); 4 CRITICAL [9,10].
+; For a finite float x and a real r:  real(x) < r  <=>  x < (least float >= r).
+(define-fun fup ((r Real)) F64 ((_ to_fp 11 53) RTP r))
+(define-fun fdown ((r Real)) F64 ((_ to_fp 11 53) RTN r))
+(define-fun ratingClass ((x F64)) Int
+  (ite (or (fp.lt x (fup 0.0)) (fp.gt x (fdown 10.0))) (- 1)
+  (ite (fp.lt x (fup 0.1)) 0
+  (ite (fp.lt x (fup 4.0)) 1
+  (ite (fp.lt x (fup 7.0)) 2
+  (ite (fp.lt x (fup 9.0)) 3 4))))))
